@@ -9,6 +9,7 @@ import (
 	"sort"
 	"strings"
 	"sync"
+	"sync/atomic"
 	"testing"
 	"time"
 
@@ -23,6 +24,7 @@ type c17Proc struct {
 	Cfg     string `json:"cfg"`      // default | tiny | literals
 	P       int    `json:"p"`        // -p
 	DelayMs int    `json:"delay_ms"` // start offset
+	Stream  bool   `json:"stream"`   // repeats its build back to back until the one-shot processes are done
 }
 
 type c17Case struct {
@@ -91,21 +93,41 @@ func c17Run(c c17Case) (v *verdict, labels []string, overlapped bool) {
 		res        h.Result
 		start, end time.Time
 		sha        string
+		runs       int
 	}
 	outs := make([]outcome, len(c.Procs))
-	var wg sync.WaitGroup
+	var wg, oneShots sync.WaitGroup
+	var oneShotsDone atomic.Bool
 	t0 := time.Now()
+	for _, pr := range c.Procs {
+		if !pr.Stream {
+			oneShots.Add(1)
+		}
+	}
+	go func() { oneShots.Wait(); oneShotsDone.Store(true) }()
 	for i, pr := range c.Procs {
 		wg.Add(1)
 		go func(i int, pr c17Proc) {
 			defer wg.Done()
+			if !pr.Stream {
+				defer oneShots.Done()
+			}
 			time.Sleep(time.Duration(pr.DelayMs) * time.Millisecond)
 			cfg := configByName(pr.Cfg, 0)
 			out := filepath.Join(dir, fmt.Sprintf("out%d.bin", i))
 			outs[i].start = time.Now()
-			outs[i].res = shared.Garble(cfg, srcs[i], "build", "-p", fmt.Sprint(pr.P), "-o", out, ".")
+			for {
+				os.Remove(out)
+				res := shared.Garble(cfg, srcs[i], "build", "-p", fmt.Sprint(pr.P), "-o", out, ".")
+				outs[i].runs++
+				outs[i].res = res
+				outs[i].sha = h.FileSHA(out)
+				// a stream keeps building until the one-shot processes are done (or it fails)
+				if !pr.Stream || !res.OK() || outs[i].sha != refs[i] || oneShotsDone.Load() || outs[i].runs >= 40 {
+					break
+				}
+			}
 			outs[i].end = time.Now()
-			outs[i].sha = h.FileSHA(out)
 		}(i, pr)
 	}
 	wg.Wait()
@@ -118,7 +140,7 @@ func c17Run(c c17Case) (v *verdict, labels []string, overlapped bool) {
 	}
 	var timeline []string
 	for i, o := range outs {
-		timeline = append(timeline, fmt.Sprintf("  #%d project %d %s -p %d: started +%.1fs, ran %.1fs, exit %d", i, c.Procs[i].Project, c.Procs[i].Cfg, c.Procs[i].P, o.start.Sub(t0).Seconds(), o.end.Sub(o.start).Seconds(), o.res.Exit))
+		timeline = append(timeline, fmt.Sprintf("  #%d project %d %s -p %d stream=%v: started +%.1fs, ran %.1fs (%d builds), last exit %d", i, c.Procs[i].Project, c.Procs[i].Cfg, c.Procs[i].P, c.Procs[i].Stream, o.start.Sub(t0).Seconds(), o.end.Sub(o.start).Seconds(), o.runs, o.res.Exit))
 	}
 	for i, o := range outs {
 		if !o.res.OK() {
@@ -147,10 +169,24 @@ func TestC17(t *testing.T) {
 				DelayMs: rapid.SampledFrom([]int{0, 0, 0, 100, 500, 800, 3000, 8000, 15000}).Draw(t, "delay"),
 			})
 		}
+		// when the shared cache has no patched linker, add streams of later builds: they keep
+		// linking while the queued early builds finish building and installing the linker
+		if c.Cache != "warm" {
+			ns := rapid.IntRange(0, 3).Draw(t, "nstreams")
+			for i := 0; i < ns; i++ {
+				c.Procs = append(c.Procs, c17Proc{
+					Project: rapid.IntRange(0, 2).Draw(t, "sproject"),
+					Cfg:     rapid.SampledFrom([]string{"default", "tiny"}).Draw(t, "scfg"),
+					P:       rapid.SampledFrom([]int{2, 4}).Draw(t, "sp"),
+					DelayMs: rapid.SampledFrom([]int{2000, 5000, 10000}).Draw(t, "sdelay"),
+					Stream:  true,
+				})
+			}
+		}
 		v, labels, overlapped := c17Run(c)
 		var mix []string
 		for _, p := range c.Procs {
-			mix = append(mix, fmt.Sprintf("%d/%s/p%d", p.Project, p.Cfg, p.P))
+			mix = append(mix, fmt.Sprintf("%d/%s/p%d/%v", p.Project, p.Cfg, p.P, p.Stream))
 		}
 		sort.Strings(mix)
 		stats.Case(stats.Desc(c.Cache, strings.Join(mix, "+")), overlapped, labels, map[string]any{"cache": c.Cache, "processes": c.Procs})
